@@ -64,6 +64,11 @@ def check(ctx):
     _kaczmarz_random(rep, model)
     from . import c12b
     c12b.run(rep, model)
+    # R9: the iterate is delivered in the caller's x: after n iterations the
+    # object passed in holds what the n-th iteration produced (a rebound
+    # local or a swapped buffer leaves the caller one iteration behind)
+    from . import c11
+    c11._callbacks(rep, model, rule='R9', final_only=True, floor=15)
     return rep
 
 
@@ -541,12 +546,19 @@ def _power_method(rep, model):
         def on_getattr(self, interp, obj, name):
             if obj is __import__('sa.symex', fromlist=['NPV']).NPV and \
                     name == 'isclose':
-                return Builtin('np.isclose', lambda *a, **k: Opaque(
-                    'np.isclose'))
+                def isclose(*a, **k):
+                    self.closes.append((a[0], a[1]))
+                    return Opaque('np.isclose')
+                return Builtin('np.isclose', isclose)
             return SolverHooks.on_getattr(self, interp, obj, name)
 
-    n_exits = 0
+        def __init__(self):
+            SolverHooks.__init__(self)
+            self.closes = []
+
+    n_exits = n4b = 0
     probs = []
+    probs4b = []
     for selfadj, maxiters in ((False, (2, 4)), (True, (1, 2, 3))):
         for maxiter in maxiters:
             def once(assume):
@@ -562,7 +574,8 @@ def _power_method(rep, model):
                 r = I.call_func(Func(fn, I.env_of(OPUTILS), None), [op],
                                 {'xstart': x0, 'maxiter': maxiter})
                 return {'est': r, 'x0_untouched': vs.lf_eq(
-                    x0.val, vs.sym('x0')), 'I': I}
+                    x0.val, vs.sym('x0')), 'I': I,
+                    'closes': list(hooks.closes)}
             try:
                 leaves = explore(once, limit=64)
             except Undecided as e:
@@ -581,6 +594,23 @@ def _power_method(rep, model):
                                  % (selfadj, maxiter, p))
                 if not res['x0_untouched']:
                     probs.append('xstart is modified')
+                # R4b: the tolerances are tolerances of the returned
+                # estimate: the stagnation test compares consecutive values
+                # of the quantity that is returned
+                cl = res['closes']
+                for k, (a_, b_) in enumerate(cl):
+                    if k and not _same_val(b_, cl[k - 1][0]):
+                        probs4b.append(
+                            '[self-adjoint=%s] stagnation test %d compares '
+                            'with %r, the previous estimate was %r' % (
+                                selfadj, k + 1, b_, cl[k - 1][0]))
+                if cl and not _same_val(cl[-1][0], res['est']):
+                    probs4b.append(
+                        '[self-adjoint=%s] the stagnation test compares %r '
+                        'but the estimate returned is %r: rtol / atol are '
+                        'applied to another quantity than the operator '
+                        'norm estimate' % (selfadj, cl[-1][0], res['est']))
+                n4b += 1 if cl else 0
     if probs:
         rep.violation('R4', cons, '; '.join(sorted(set(probs))[:3]), OPUTILS,
                       fn.lineno)
@@ -588,6 +618,20 @@ def _power_method(rep, model):
         rep.holds('R4', cons, 'on all %d exits the estimate is ||T u|| '
                   '(sqrt on the normal arm) of a normalised u' % n_exits)
     rep.count('power_method_exits', n_exits)
+    if probs4b:
+        rep.violation('R4b', cons, '; '.join(sorted(set(probs4b))[:2]),
+                      OPUTILS, fn.lineno)
+    else:
+        rep.holds('R4b', cons, 'on %d exits the stagnation test compares '
+                  'consecutive values of the returned estimate' % n4b)
+    rep.floor('R4b', 'exits with a stagnation test', n4b, 6)
+
+
+def _same_val(a, b):
+    try:
+        return (to_rat(a) - to_rat(b)).is_zero()
+    except Exception:
+        return a is b
 
 
 def _check_estimate(est, selfadj):
